@@ -95,14 +95,41 @@ fn tree_for_string(sink: &RcDom, root: &Handle, s: &str) {
     }
 }
 
+/// build the children described by a canonical tree (as exported by MC_HtmlRoundTrip) under `parent`
+fn build_from_json(sink: &RcDom, parent: &Handle, ch: &Value) {
+    for n in ch.as_array().unwrap() {
+        match n["k"].as_str().unwrap() {
+            "text" => sink.append(parent, NodeOrText::AppendText(StrTendril::from_slice(&from_cps(&n["s"])))),
+            "el" => {
+                let attrs = n["attrs"].as_array().unwrap().iter().map(|a| Attribute {
+                    name: QualName::new(None, markup5ever::ns!(), LocalName::from(&*from_cps(&a["local"]))),
+                    value: StrTendril::from_slice(&from_cps(&a["v"])),
+                }).collect();
+                let el = create_element(sink, QualName::new(None, markup5ever::ns!(html), LocalName::from(&*from_cps(&n["local"]))), attrs);
+                sink.append(parent, NodeOrText::AppendNode(el.clone()));
+                build_from_json(sink, &el, &n["ch"]);
+            },
+            _ => {},
+        }
+    }
+}
+
 fn roundtrip(r: &mut Rng, id: u64, out: &mut Out, fixed: Option<&str>) {
-    let scripting = fixed.is_some() || !r.chance(1, 3);
+    roundtrip_case(r, id, out, fixed, None)
+}
+
+fn roundtrip_case(r: &mut Rng, id: u64, out: &mut Out, fixed: Option<&str>, tree: Option<&Value>) {
+    let scripting = match tree {
+        Some(t) => t["scripting"].as_bool().unwrap_or(true),
+        None => fixed.is_some() || !r.chance(1, 3),
+    };
     let sink = RcDom::default();
     let root = create_element(&sink, ctx_name(), vec![]);
     let mut budget = 10;
-    match fixed {
-        Some(s) => tree_for_string(&sink, &root, s),
-        None => gen_children(r, &sink, &root, 0, &mut budget, scripting),
+    match (tree, fixed) {
+        (Some(t), _) => build_from_json(&sink, &root, &t["tree"]),
+        (None, Some(s)) => tree_for_string(&sink, &root, s),
+        (None, None) => gen_children(r, &sink, &root, 0, &mut budget, scripting),
     }
     let t1 = Value::Array(root.children.borrow().iter().map(dump).collect());
     match ser(&root, TraversalScope::ChildrenOnly(Some(ctx_name())), scripting) {
@@ -174,6 +201,9 @@ pub fn main(args: &Args) {
                     if c.get("s").is_some() {
                         id += 1;
                         roundtrip(&mut r, id, &mut out, Some(&from_cps(&c["s"])));
+                    } else if c.get("tree").is_some() {
+                        id += 1;
+                        roundtrip_case(&mut r, id, &mut out, None, Some(&c));
                     }
                 }
             } else {
